@@ -44,7 +44,7 @@ def oracle_serial(r: dict) -> list[str]:
             if seq.count('finished') != 1 or seq.count('running') != 1:
                 msgs.append(f'run {cur} reported {seq.count("running")}× running and {seq.count("finished")}× finished')
             if w[0] in ('exit', 'exitx', 'pexit') or 'ret:reset' not in rep:
-                want = '-' if w[1] == '-' else w[1]
+                want = '-' if w[1] in ('-', '+') else w[1]
                 if g['fe'][0] == 'N' and w[0] in ('exit', 'exitx', 'pexit'):
                     msgs.append(f'after run {cur} ended format_exception() is None (no result recorded)')
                 if w[0] in ('exit', 'exitx', 'pexit') and g['rs'][0] != want:
